@@ -170,13 +170,16 @@ _cov_re = re.compile(r"^<(\w+) line (\d+), col \d+ to line \d+, col \d+ of modul
 
 def tlc(run, module, cfg, mode="bfs", workers=None, dump=None, sim=None, env=None, timeout=1100,
         tag=None, coverage=True, depth=None, xmx="20g", constants_note=None, deadlock=None, dfs_queue=False,
-        view_ok=True):
+        view_ok=True, spec_dir=None):
     """Run TLC on spec/<module>.tla with spec/<cfg>.  Returns dict."""
     tag = tag or (cfg.replace(".cfg", "") + "-" + mode)
     md = run.path("md-" + tag)
     shutil.rmtree(md, ignore_errors=True)
     workers = workers or (1 if mode == "trace" else NCPU)
-    cmd = ["java", "-XX:+UseParallelGC", "-Xmx" + xmx]
+    cmd = ["java", "-XX:+UseParallelGC", "-Xmx" + xmx, "-Xss64m"]
+    sd = spec_dir or SPEC
+    if spec_dir:
+        cmd.append("-DTLA-Library=" + SPEC)     # generated modules live in the build directory and EXTEND the suite
     if dfs_queue:
         cmd.append("-Dtlc2.tool.queue.IStateQueue=StateDeque")
     cmd += ["-cp", TLA_CP, "tlc2.TLC", "-workers", str(workers), "-metadir", md, "-noGenerateSpecTE"]
@@ -189,9 +192,9 @@ def tlc(run, module, cfg, mode="bfs", workers=None, dump=None, sim=None, env=Non
         cmd += ["-simulate", "file=%s,num=%d" % (prefix, num), "-depth", str(dep), "-seed", str(run.seed)]
     if deadlock is False:
         cmd += ["-deadlock"]
-    cmd += ["-config", os.path.join(SPEC, cfg), os.path.join(SPEC, module + ".tla")]
+    cmd += ["-config", os.path.join(sd, cfg), os.path.join(sd, module + ".tla")]
     t0 = time.time()
-    rc, out = sh(cmd, timeout=timeout, env=env, cwd=SPEC)
+    rc, out = sh(cmd, timeout=timeout, env=env, cwd=sd)
     wall = time.time() - t0
     res = {"module": module, "cfg": cfg, "mode": mode, "rc": rc, "wall_s": round(wall, 2), "out": out,
            "generated": 0, "distinct": 0, "depth": 0, "coverage": {}, "violated": None, "cex": []}
@@ -457,14 +460,14 @@ def count_lines(path):
     return n
 
 
-def validate_trace(run, trace_module, cfg, trace_path, tag=None, timeout=1100, xmx="20g", workers=1, extra_env=None):
+def validate_trace(run, trace_module, cfg, trace_path, tag=None, timeout=1100, xmx="20g", workers=1, extra_env=None, spec_dir=None):
     """TLC-validate an ndjson trace.  Returns (accepted, matched_events, res)."""
     n = count_lines(trace_path)
     env = {"TRACE": trace_path}
     if extra_env:
         env.update(extra_env)
     res = tlc(run, trace_module, cfg, mode="trace", workers=workers, env=env, timeout=timeout, tag=tag or ("tv-" + os.path.basename(trace_path)),
-              coverage=False, xmx=xmx, deadlock=False)
+              coverage=False, xmx=xmx, deadlock=False, spec_dir=spec_dir)
     out = res["out"]
     if res.get("violated"):
         # an invariant of the specification is violated on a state reached by the trace
@@ -535,11 +538,11 @@ def split_execs(trace_path):
     return n, hs
 
 
-def check_trace(run, what, trace_module, cfg, trace_path, script_path=None, timeout=1100, xmx="20g", extra_env=None):
+def check_trace(run, what, trace_module, cfg, trace_path, script_path=None, timeout=1100, xmx="20g", extra_env=None, spec_dir=None):
     """validate; on rejection re-run once; raise Violation with a replay file"""
-    ok, matched, res = validate_trace(run, trace_module, cfg, trace_path, timeout=timeout, xmx=xmx, extra_env=extra_env)
+    ok, matched, res = validate_trace(run, trace_module, cfg, trace_path, timeout=timeout, xmx=xmx, extra_env=extra_env, spec_dir=spec_dir)
     if not ok:
-        ok2, matched2, res2 = validate_trace(run, trace_module, cfg, trace_path, tag="tv-rerun", timeout=timeout, xmx=xmx, extra_env=extra_env)
+        ok2, matched2, res2 = validate_trace(run, trace_module, cfg, trace_path, tag="tv-rerun", timeout=timeout, xmx=xmx, extra_env=extra_env, spec_dir=spec_dir)
         if ok2:
             raise Infra("%s: trace rejection did not repeat" % what)
         bad = read_line(trace_path, matched2 + 1)
